@@ -370,6 +370,7 @@ def _rotation(p: Dict[str, Any], stats: Dict[str, int]) -> List[Dict[str, Any]]:
                 seq.extend(snap.get("t1.jsonl", []))
                 return seq
 
+            chain: Any = None
             for oi, op in enumerate(p["ops"]):
                 stats["evaluations"] = stats.get("evaluations", 0) + 1
                 if op["op"] == "append":
@@ -379,8 +380,15 @@ def _rotation(p: Dict[str, Any], stats: Dict[str, int]) -> List[Dict[str, Any]]:
                     everything.extend(ids)
                     continue
                 before = snapshot()
+                retry = False
                 n = int(op["backups"])
                 oldest_before = set(before.get("t1.jsonl.%d" % n, []))
+                if chain is not None and chain["backups"] == n:
+                    # the previous rotation (same depth) was interrupted before the live log moved: this one is its completion, and
+                    # together they may lose what ONE rotation may lose - the generation that was oldest when the first attempt began
+                    oldest_before = set(chain["allowed"])
+                    stats["rotation_retries"] = stats.get("rotation_retries", 0) + 1
+                    retry = True
                 faults = [{"k": int(op["kill_at"]), "kind": "crash"}] if "kill_at" in op else []
                 if "fail_at" in op:
                     faults = [{"k": int(op["fail_at"]), "kind": "error", "errno": op["errno"], "times": int(op.get("times", 1))}]
@@ -411,8 +419,10 @@ def _rotation(p: Dict[str, Any], stats: Dict[str, int]) -> List[Dict[str, Any]]:
                 if not all(any(x == y for y in it) for x in seq):
                     viol.append({"cls": "rotation", "sig": "rotation:order-not-preserved", "detail": "generations oldest->newest %s are not a subsequence of %s; %s" % (seq, everything, ctx)})
                 lost = set(gens(before)) - set(seq)
+                incomplete = bool(killed) and "t1.jsonl" in after and after.get("t1.jsonl") == before.get("t1.jsonl")
+                chain = {"backups": n, "allowed": set(oldest_before) - lost} if (incomplete and "t1.jsonl" in before) else None
                 if not lost <= oldest_before:
-                    viol.append({"cls": "rotation", "sig": "rotation:lost-more-than-oldest%s" % (":failed-step" if killed == "error" or "fail_at" in op else (":killed" if killed else "")),
+                    viol.append({"cls": "rotation", "sig": ("rotation:retry-lost-another-generation" if retry else "rotation:lost-more-than-oldest%s" % (":failed-step" if killed == "error" or "fail_at" in op else (":killed" if killed else ""))),
                                  "detail": "lost %s, the then-oldest generation held %s; %s" % (sorted(lost), sorted(oldest_before), ctx)})
                 if viol:
                     break
